@@ -34,6 +34,7 @@ const (
 	OpK8sGet      = "k8s.get"
 	OpK8sUpdate   = "k8s.update"
 	OpK8sDelete   = "k8s.delete"
+	OpK8sList     = "k8s.list"
 	OpListPods    = "k8s.listpods"
 	OpListNodes   = "k8s.listnodes"
 	OpDescribeASG = "asg.describe"
